@@ -67,6 +67,12 @@ def cases(tier):
             yield {"kind": "widen", "gs": list(gs), "slice": "hist", "T": 3}
     for name, pos, g in ms.special_graphs():
         yield {"kind": "widen", "gs": ms.explicit(g), "pos": pos, "slice": "hist-special", "name": name, "T": 3}
+    # extensions of a width-limited matcher: match a prefix, then match(longer, expand=True)
+    for gs in ms.graph_slice("n3" if tier == "quick" else "n4e4"):
+        if al.nedges(gs[2]) >= 4:
+            yield {"kind": "extend", "gs": list(gs), "slice": "hist", "T": 3}
+    for name, pos, g in ms.special_graphs():
+        yield {"kind": "extend", "gs": ms.explicit(g), "pos": pos, "slice": "hist-special", "name": name, "T": 3}
 
 
 # ------------------------------------------------------------------ layer 1: the seam
@@ -561,9 +567,46 @@ def run_widen(case, res):
     res["out"] = sorted(outs, key=repr)[:1000]
 
 
+def run_extend(case, res):
+    """match(prefix) then match(longer, expand=True) on a width-limited matcher: at every expansion of the extension round
+    only the W most probable live candidates (plus ties) of a column may be expanded."""
+    graph = ps.graph_of(case)
+    pos = ps.pos_of(case)
+    egraph = ms.explicit(graph)
+    mp = maps.inmem(graph)
+    outs = set()
+    traces = ps.traces_of(case, graph)
+    cfgs = [case["cfg"]] if "cfg" in case else [dict(c, width=w) for c in HCFG for w in (1, 2)]
+    for trace in traces:
+        T = len(trace)
+        cuts = [case["cut"]] if "cut" in case else list(range(1, T))
+        for c in cfgs:
+            for k in cuts:
+                m = ms.make_matcher(mp, c)
+                mini = {"kind": "extend", "gs": egraph, "pos": pos, "slice": case["slice"], "trace": trace, "cfg": c, "cut": k}
+                where = f"{al.describe_graph(graph)} trace {trace} cfg {c}: match(first {k}), then match(all {T}, expand=True)"
+                try:
+                    m.match(list(trace[:k]))
+                    with ExpansionProbe() as probe:
+                        r = m.match(list(trace), expand=True)
+                except Exception as exc:  # noqa
+                    res["v"].append({"msg": f"{where}: raised {exc!r}", "case": mini})
+                    continue
+                res["n"] += 2
+                res["tr"] += 2
+                res["st"] += 1
+                res["tv"] += 1
+                if probe.calls:
+                    res["nt"] += 1
+                for msg in probe.msgs[:2]:
+                    res["v"].append({"msg": f"{where}: {msg}", "case": mini})
+                outs.add((r[1], len(m.lattice_best or ())))
+    res["out"] = sorted(outs, key=repr)[:500]
+
+
 def run_case(case):
     res = dict(n=0, st=0, tr=0, tv=0, nt=0, out=[], v=[], k=[])
-    {"seam": run_seam, "seq": run_seq, "run": run_runs, "widen": run_widen}[case["kind"]](case, res)
+    {"seam": run_seam, "seq": run_seq, "run": run_runs, "widen": run_widen, "extend": run_extend}[case["kind"]](case, res)
     res["v"] = res["v"][:30]
     return res
 
